@@ -243,7 +243,16 @@ fn part_b(ctx: &mut Ctx, evals: &mut u64, nontrivial: &mut u64, samples: &mut Ve
                 if hist.iter().any(|o| matches!(o, Op::Q(_, 3) | Op::JQ(_, 3))) && hist.iter().any(|o| matches!(o, Op::Next(_) | Op::Agg)) {
                     nt.fetch_add(1, Ordering::Relaxed);
                 }
-                let want = reference_history(pf, &hist);
+                let want = match catch(|| reference_history(pf, &hist)) {
+                    Ok(w) => w,
+                    Err(e) => {
+                        let mut b = bad.lock().unwrap();
+                        if b.len() < 50 {
+                            b.push(("arrival::Curve#panic".into(), format!("prefix {:?}: the eagerly extrapolated Curve panics: {e}", pf), json!({"dmin": pf, "history": hist})));
+                        }
+                        return;
+                    }
+                };
                 match catch(|| run_history(pf, &hist)) {
                     Ok(got) if got == want => {}
                     Ok(got) => {
